@@ -440,3 +440,18 @@ package commands
 //@     after call encoder.ContinuationTokenSerializer.Serialize returning b, e : serialized = e == nil ; serTok = bytes(b)
 //@     before call encoder.Encoder.Encode args _, b : assert serialized && bytes(b) == serTok
 //@     after call encoder.Encoder.Encode returning s, e : encoded = e == nil ; encodedTok = s
+
+// ------------------------------------------------------------------ C03: which weighted-graph errors are final
+// a weighted-graph error ends the request (no fall-back to the default engine) exactly when it is a deadline /
+// cancellation / throttling error or carries the validation_error / invalid_tuple code (the documented request-shape
+// rejections); every other error falls back
+//@ func IsV2CheckTerminalError(err) (b)
+//@   property C03
+//@   option nosafety
+//@   ensures @exactly b <==> (errIs(err, context.DeadlineExceeded) || errIs(err, context.Canceled) || errIs(err, errors.ErrRequestDeadlineExceeded) || errIs(err, errors.ErrRequestCancelled) || errIs(err, errors.ErrThrottledTimeout) || errIs(err, errors.ErrTransactionThrottled) || (fromCalled && fromOK && (code == openfgav1.ErrorCode_validation_error || code == openfgav1.ErrorCode_invalid_tuple)))
+//@   monitor grpcCode
+//@     ghost fromCalled = false
+//@     ghost fromOK = false
+//@     ghost code int = 0
+//@     after call status.FromError args e returning st, ok : fromCalled = e == err ; fromOK = ok
+//@     after call (*status.Status).Code returning c : code = c
